@@ -99,7 +99,7 @@ def run_case(case: dict) -> Result:
             outside = order.tokens[:a] + order.tokens[b + 1:]
             inner = ''.join(t.raw_text for t in order.tokens[a:b + 1])
             outer_only = (target != 'file' and printed == inner and bool(outside) and all(
-                isinstance(t, (O.Whitespace, O.Newline)) or type(t).__name__ == 'Indent' or (isinstance(t, O.BlockComment) and not t.claimed) or t.raw_text == ''
+                isinstance(t, (O.Whitespace, O.Newline)) or type(t).__name__ in ('Indent', 'InlineComment') or (isinstance(t, O.BlockComment) and not t.claimed) or t.raw_text == ''
                 for t in outside))
             has_comment = any(isinstance(t, O.BlockComment) for t in outside)
         except Exception:  # noqa: BLE001
